@@ -28,6 +28,9 @@ namespace deep { leaf = record { k: lib.kind; } }
 }
 top_rec = record { v: i8; }
 ext_rec = record +cpp { v: i8; }
+namespace audio { format = enum { pcm; } }
+namespace video { format = enum { h264; } }
+namespace toggle { on = enum { a; } null = record { v: i8; } yes = flags { f; } }
 '''
 FEATURES = {
     'enum-field': 'u = record { k: lib.kind; ok: lib.kind?; }',
@@ -43,6 +46,8 @@ FEATURES = {
     'function-uses': 'fn = function (p: lib.point, k: lib.kind) -> lib.opts;',
     'error-params': 'mine = error { failed(p: lib.point k: lib.kind?); }',
     'record-extended-in-cpp': 'u = record { e: ext_rec; es: list<ext_rec>; }',
+    'same-name-two-namespaces': 'u = record { a: audio.format; v: video.format; }',
+    'yaml-keyword-names': 'u = record { t: toggle.on; n: toggle.null?; y: toggle.yes; }',
     'inline-function': 'svc = interface +cpp +java +objc +cppcli { on(cb: (p: lib.point) -> lib.kind); }',
 }
 
@@ -116,7 +121,9 @@ def run(ctx):
             if doc is None:
                 continue
             if per.get(key) != doc and ('per-type', style) in exported:
-                ctx.add_violation({'kind': 'export-modes-differ'}, 'per-type file and single file differ for %s' % (key,), {'single': doc, 'per_type': per.get(key)})
+                dup = sum(1 for k2 in live if k2[1] == key[1]) > 1
+                ctx.add_violation({'kind': 'export-modes-differ', 'cause': 'same-simple-name' if dup else 'other'},
+                                  'per-type file and single file differ for %s' % (key,), {'single': doc, 'per_type': per.get(key)})
             targets = []
             for g in ('cpp', 'cppcli', 'java', 'jni', 'objc', 'objcpp'):
                 comp = d['computed'].get(g, {})
